@@ -203,7 +203,7 @@ Print Assumptions nexus_skeleton_total_partial.
    tokenizer configuration and character list, `__next__` returns a token and strictly shortens
    the input, or reports end of stream, or raises UnterminatedQuoteError (a DataParseError). *)
 Theorem tokenizer_progress : forall (cfg : tok_cfg) (s : Tokenizer.str),
-  match next_token cfg s with
+  match Tokenizer.next_token cfg s with
   | TTok t q cs rest => (length rest < length s)%nat
   | TEof _ => True
   | TErr e => e = ParseErr
